@@ -5,6 +5,8 @@ import random
 import vlib
 
 OPS = ["evC", "evR", "evD", "evM", "rm", "rp", "reg", "rereg", "unreg"]
+# the child's event answered A, then remove() (m) / replace(new) (p) by the parent inside the same process_events
+OPS_THEN = ["e%s%s" % (a, k) for a in "CRDM" for k in "mp"]
 
 
 def proto_ok(ops):
@@ -23,7 +25,7 @@ def proto_ok(ops):
             if not reg:
                 return False
             dirty = False
-        elif o.startswith("ev"):
+        elif o.startswith("e"):
             if not reg or dirty:
                 return False
         else:
@@ -42,9 +44,19 @@ def gen_cases(tier, seed):
             for ops in itertools.product(OPS, repeat=n):
                 # parent re-/un-registration before the first registration cannot be issued through the loop
                 first_reg = next((i for i, o in enumerate(ops) if o == "reg"), len(ops))
-                if any(o in ("rereg", "unreg") or o.startswith("ev") for o in ops[:first_reg]):
+                if any(o in ("rereg", "unreg") or o.startswith("e") for o in ops[:first_reg]):
                     continue
                 cases.append(start + " " + " ".join(ops))
+    # in-callback remove()/replace(): every placement of one such operation in the short sequences
+    short = 3 if tier == "quick" else 4
+    for n in range(0, short + 1):
+        for ops in itertools.product(OPS, repeat=n):
+            for pos in range(n + 1):
+                for t in OPS_THEN:
+                    seq = ["reg"] + list(ops[:pos]) + [t] + list(ops[pos:])
+                    if tier == "quick" and not proto_ok(seq):
+                        continue
+                    cases.append("from " + " ".join(seq))
     nrand = 4000 if tier == "quick" else 60000
     for _ in range(nrand):
         n = rnd.randint(5, 14)
@@ -53,9 +65,9 @@ def gen_cases(tier, seed):
         while len(ops) < n:
             # mostly protocol-following continuations
             if rnd.random() < 0.85:
-                cand = [o for o in OPS if proto_ok(ops + [o])]
+                cand = [o for o in OPS + OPS_THEN if proto_ok(ops + [o])]
             else:
-                cand = OPS
+                cand = OPS + OPS_THEN
             if "reg" not in ops:
                 cand = [o for o in cand if o in ("rm", "rp", "reg")]
             if not cand:
